@@ -224,6 +224,7 @@ func C02(tier string) int {
 	boundaryPass(rep, "C02", false, true, false)
 	c02ChildStores(rep, thorough)
 	c02Adopt(rep)
+	c02EmptyAndReparsedQueries(rep)
 	rep.Set("evaluations", rep.Get("evaluations"))
 	rep.Set("distinct_nontrivial", int(rep.Get("compared_pairs")))
 	return rep.Finish()
@@ -619,4 +620,69 @@ func c02Adopt(rep *report.Report) {
 			break
 		}
 	}
+}
+
+// c02EmptyAndReparsedQueries: paging and sort set on one parsed query through the API belong to that query object
+// alone. A query text parsed again - in particular the EMPTY filter text, and `true` - must give the full, id-ordered
+// answer whatever was done to earlier parses of the same text.
+func c02EmptyAndReparsedQueries(rep *report.Report) {
+	w := newQWorld()
+	w.open()
+	defer w.close()
+	ids := []string{"e1", "e2", "e3", "e4"}
+	ds := newQDS()
+	for i, id := range ids {
+		ds.Stores["people"].Ents[id] = &rm.Ent{Id: id, F: map[string]rm.Val{"s": rm.Str(string(rune('d' - i)))}, Sets: map[string][]string{}, Fk: map[string]*string{}, Tags: map[string]rm.Val{}}
+	}
+	_ = w.db.Update(nil, func(ctx boltz.MutateContext) error {
+		if err := w.materialise(ctx, ds); err != nil {
+			rep.Violation("C02|reparsed|materialise", err.Error(), nil)
+			return errSkip
+		}
+		tx := ctx.Tx()
+		all := strings.Join(ids, ",")
+		for _, text := range []string{"", "true", "limit none", "skip 0"} {
+			for round := 0; round < 2; round++ {
+				rep.Count("evaluations", 1)
+				rep.Count("reparsed_query_checks", 1)
+				q, err := ast.Parse(w.people, text)
+				if err != nil {
+					rep.Violation("C02|reparsed|parse|"+text, fmt.Sprintf("%q: %v", text, err), nil)
+					break
+				}
+				// a fresh parse: the full answer
+				got, count, err := w.people.QueryIdsC(tx, q)
+				if err != nil || strings.Join(got, ",") != all || count != 4 {
+					rep.Violation("C02|reparsed|fresh-parse|"+text, fmt.Sprintf("round %d: a fresh parse of %q returns %v count=%d err=%v, expected [%s] count=4", round, text, got, count, err, all), map[string]interface{}{"query": text, "round": round})
+					break
+				}
+				// now page and sort THIS object through the API
+				q.SetSkip(1)
+				q.SetLimit(2)
+				if other, err := ast.Parse(w.people, "true sort by s"); err == nil {
+					if err := q.AdoptSortFields(other); err != nil {
+						rep.Violation("C02|reparsed|adopt|"+text, err.Error(), nil)
+					}
+				}
+				want := "e3,e2" // s = d, c, b, a for e1..e4: ascending by s is e4 e3 e2 e1; skip 1 limit 2
+				got, count, err = w.people.QueryIdsC(tx, q)
+				if err != nil || strings.Join(got, ",") != want || count != 4 {
+					rep.Violation("C02|reparsed|paged-object|"+text, fmt.Sprintf("round %d: %q with SetSkip(1), SetLimit(2) and an adopted `sort by s` returns %v count=%d err=%v, expected [%s] count=4", round, text, got, count, err, want), map[string]interface{}{"query": text, "round": round})
+				}
+				// the text route and a cursor, afterwards
+				got, count, err = w.people.QueryIds(tx, text)
+				if err != nil || strings.Join(got, ",") != all || count != 4 {
+					rep.Violation("C02|reparsed|text-after-paged-object|"+text, fmt.Sprintf("round %d: QueryIds(%q) after another parse of the same text was paged returns %v count=%d err=%v, expected [%s] count=4", round, text, got, count, err, all), map[string]interface{}{"query": text, "round": round})
+					break
+				}
+				if q2, err := ast.Parse(w.people, text); err == nil {
+					if it := strings.Join(drain(w.people.IterateIds(tx, q2)), ","); it != all {
+						rep.Violation("C02|reparsed|cursor-after-paged-object|"+text, fmt.Sprintf("round %d: IterateIds over a fresh parse of %q gives [%s], expected [%s]", round, text, it, all), map[string]interface{}{"query": text, "round": round})
+						break
+					}
+				}
+			}
+		}
+		return errSkip
+	})
 }
